@@ -560,7 +560,26 @@ Keep(c) == /\ (Thin(c) = 1 \/ Hash(Flat(c), Thin(c)) = 0)
 (*         expression, map(int, ..), reversed(..).  The documentation only says "int list"; the        *)
 (*         functions merely iterate the argument (their own default is a lazy `range`), so every       *)
 (*         iterable must give the same value.  A one-shot iterator is rebuilt for every repeated call. *)
-FormFields == {"ity", "dt", "ct", "sc", "rep", "me", "e2", "mf"}
+(*   cf  : call form: "mixed" (leading operands positional, options by keyword), "pos" (every      *)
+(*         parameter positionally in the published order), "kw" (every parameter by its published    *)
+(*         name); the published names / order are frozen in the harness                              *)
+(*   ep  : entry point: the dispatching attribute tensorly.tenalg.<fn> or the function of the       *)
+(*         selected backend package itself                                                          *)
+(*   alias: operands of the list ts with the same AliasKey are ONE array object (same values)         *)
+(*   pre : "failed" = an earlier call with the same argument objects and one invalid option was made  *)
+(*         and its exception caught; the real call(s) that follow must still be right                 *)
+(*   nz  : every exact zero of a floating operand is passed as -0.0                                   *)
+(*   rsr : sample_khatri_rao(return_sampled_rows = rsr)                                               *)
+(*   me = -1074 makes the whole first operand SUBNORMAL (integer multiples of 2^-1074 are exact)      *)
+FormFields == {"ity", "dt", "ct", "sc", "rep", "me", "e2", "mf", "cf", "ep", "alias", "pre", "nz", "rsr"}
+CallForms == <<"mixed", "pos", "kw">>
+EpForms(c) == IF c.op = "sampled_kr" \/ (c.op = "mttkrp" /\ c.variant = "memory") THEN <<"dispatch">>
+              ELSE <<"dispatch", "direct">>
+PreForms(c) == IF ~Raises(c) /\ c.op \in {"mode_dot", "multi_mode_dot", "khatri_rao", "inner", "tensordot", "mttkrp", "sampled_kr"}
+               THEN <<"none", "failed">> ELSE <<"none">>
+RsrForms(c) == IF c.op = "sampled_kr" /\ ~IsBigKR(c) THEN <<TRUE, FALSE>> ELSE <<TRUE>>   \* (the big-rows regime is about the row numbers)
+Bools == <<FALSE, TRUE>>
+AliasKey(c, k) == <<InShapes(c)[k], c.sc[k], IF k = 1 /\ (c.dt # "same" \/ c.me # 0) THEN 1 ELSE 0>>
 AllModeForms == <<"list", "tuple", "array", "dictkeys", "iter", "gen", "map", "reversed", "range">>
 IsProgression(s) == Len(s) <= 1 \/ (s[2] # s[1] /\ \A k \in 2..Len(s) : s[k] - s[k - 1] = s[2] - s[1])
 ModeSeqs(c) ==      \* the mode sequences the call passes as iterables
@@ -574,7 +593,7 @@ ModeForms(c) ==
     ELSE SubSeq(AllModeForms, 1, Len(AllModeForms) - 1)
 RepForms == <<1, 2, 3>>
 MagForms(c) == IF c.dt \in {"int_f", "f32_f64"} \/ Raises(c) THEN <<0>>     \* an int64 / float32 operand has no such range
-               ELSE IF c.op = "moment" THEN <<0, -300, 300>> ELSE <<0, -600, 500>>
+               ELSE IF c.op = "moment" THEN <<0, -300, 300>> ELSE <<0, -600, 500, -1074>>
 FirstUses(c) == IF c.op = "moment" THEN c.order
                 ELSE IF c.op \in {"kronecker", "khatri_rao", "sampled_kr"} /\ c.skip = 0 THEN 0 ELSE 1
 \* forms each operation is exercised with (forms that the unchanged tree does not handle and the
@@ -616,12 +635,17 @@ WithForms(c) ==
         me == Rot(MagForms(cf), h \div 90)
     IN  cf @@ [sc |-> ScaleCodes(cf), rep |-> Rot(RepForms, h \div 30), me |-> me, e2 |-> me * FirstUses(cf),
                mf |-> Rot(ModeForms(cf), h \div 7)]
+           @@ (LET g == Hash(Flat(c) \o <<17>>, 999979) IN
+               [cf |-> Rot(CallForms, g), ep |-> Rot(EpForms(c), g \div 3), alias |-> Rot(Bools, g \div 6),
+                pre |-> Rot(PreForms(c), g \div 12), nz |-> Rot(Bools, g \div 24), rsr |-> Rot(RsrForms(c), g \div 48)])
 ValidCfg(c) ==
     /\ BaseOK(c) /\ DOMAIN c = Fields(c.op) \cup FormFields
     /\ InSeq(c.ity, IntForms(c)) /\ InSeq(c.dt, DtForms(c)) /\ InSeq(c.ct, CtForms(c))
     /\ c.sc = ScaleCodes(c)
     /\ InSeq(c.rep, RepForms) /\ InSeq(c.me, MagForms(c)) /\ c.e2 = c.me * FirstUses(c)
     /\ InSeq(c.mf, ModeForms(c))
+    /\ InSeq(c.cf, CallForms) /\ InSeq(c.ep, EpForms(c)) /\ IsBool(c.alias) /\ InSeq(c.pre, PreForms(c))
+    /\ IsBool(c.nz) /\ InSeq(c.rsr, RsrForms(c))
 
 ----------------------------------------------------------------------------
 (* Theorems about the specification (evaluated by TLC in every state of the design run, i.e. for  *)
